@@ -156,6 +156,10 @@ func (c *clientService) TerminateSession(clientID string) {
 			err = fmt.Errorf("session terminated fail: %s", err.Error())
 			zaplog.Error("session terminated fail", zap.Error(err))
 		}
+		// Send the delayed will message because the session is ended.
+		if w, ok := c.srv.willMessage[clientID]; ok {
+			w.signal(true)
+		}
 	}
 
 }
